@@ -146,16 +146,55 @@ def judge(module: str, cfg: str, records: list, chunk: int = 4000):
     return verdicts, results
 
 
-def _pool_map(fn, items, fresh: bool, chunk: int = 64):
-    """fresh=True: every item runs in a newly forked child of this (pristine) process."""
+def _in_child(fn, item):
+    """fn(item) in a child forked from this process, which itself never touches the library's memo tables."""
+    import pickle
+    r, w = os.pipe()
+    pid = os.fork()
+    if pid == 0:
+        code = 0
+        try:
+            os.close(r)
+            try:
+                data = pickle.dumps(("ok", fn(item)))
+            except BaseException as e:  # noqa: BLE001
+                data = pickle.dumps(("exc", repr(e)))
+            with os.fdopen(w, "wb") as f:
+                f.write(data)
+        except BaseException:  # noqa: BLE001
+            code = 1
+        finally:
+            os._exit(code)
+    os.close(w)
+    with os.fdopen(r, "rb") as f:
+        data = f.read()
+    os.waitpid(pid, 0)
+    if not data:
+        raise MachineryError("a replay child died without a result")
+    tag, val = pickle.loads(data)
+    if tag != "ok":
+        raise MachineryError("replay child failed: " + val)
+    return val
+
+
+def _fresh_chunk(job):
+    fn, items = job
+    return [_in_child(fn, it) for it in items]
+
+
+def _pool():
+    """16 forked workers; created before any thread exists and before this process has touched the library's tables."""
+    return mp.get_context("fork").Pool(min(16, os.cpu_count() or 4))
+
+
+def _fresh_map(pool, fn, items, per_worker: int = 8):
+    """Every item runs in its own newly forked process (forked from a worker that so far has only forked)."""
     items = list(items)
-    ctx = mp.get_context("fork")
-    procs = min(16, os.cpu_count() or 4)
-    if fresh:
-        with ctx.Pool(procs, maxtasksperchild=1) as pool:
-            return pool.map(fn, items, chunksize=1)
-    with ctx.Pool(procs) as pool:
-        return pool.map(fn, items, chunksize=chunk)
+    if not items:
+        return []
+    size = max(1, min(per_worker, (len(items) + 63) // 64))
+    chunks = [(fn, items[i:i + size]) for i in range(0, len(items), size)]
+    return [x for part in pool.map(_fresh_chunk, chunks, chunksize=1) for x in part]
 
 
 TXT = dict(T0="TextsA", T1="TextsC", T2="TextsC", Bodies="BodiesA")
@@ -177,7 +216,7 @@ DELIM_RUNS = {
 def delims_jobs(tier: str) -> list:
     jobs = []
     for n, kw in enumerate(DELIM_RUNS[tier]):
-        jobs.append(("Delims", gen_cfg("cfg/Delims.tmpl", dict(kw, Dev="FALSE", Emit="INVARIANT Emit"), f"d{n}"), dict(workers=1, timeout=3000)))
+        jobs.append(("Delims", gen_cfg("cfg/Delims.tmpl", dict(kw, Dev="FALSE", Emit="INVARIANT Emit"), f"d{n}"), dict(workers=4, timeout=3000)))
     jobs.append(("Delims", gen_cfg("cfg/Delims.tmpl", dict(Progs="dev", DSets="dot", Lo=1, Hi=0, Dev="TRUE", Emit="", **TXT), "ddev"),
                  dict(workers=1, timeout=600, expect_violation=True)))
     return jobs
@@ -194,6 +233,7 @@ def delims_cases(ck: Check, tier: str, results: list, rnd: random.Random):
         if not r.emitted:
             raise MachineryError(f"Delims.tla emitted nothing for {what} (vacuous)")
         cases += r.emitted
+    cases.sort(key=lambda c: json.dumps(c, sort_keys=True))          # several TLC workers print in no particular order
     if results[-1].violated != "ScanRecovers":
         raise MachineryError("deviation Unescaped does not violate ScanRecovers: vacuous")
     ck.cov["deviation_demo_delims"] = "Unescaped=TRUE violates ScanRecovers"
@@ -313,17 +353,25 @@ def replay_history(job):
     return got
 
 
+def replay_session(jobs):
+    """Several histories one after the other in this (fresh) process: one long interleaving."""
+    return [replay_history(j) for j in jobs]
+
+
 def replay_alone(key):
-    """One operation in a process that has done nothing else."""
-    kind, src, cfg, ds, how = json.loads(key)
+    """One template in one environment in a process that has done nothing else: parse, then render (sync, then async)."""
+    src, cfg, ds = json.loads(key)
     tpl, o = _parse(_make_env(cfg, ds), src)
-    return o if kind == "parse" else _render(tpl, how)
+    return {"parse": o, "sync": _render(tpl, "sync"), "async": _render(tpl, "async")}
 
 
-def _alone_key(h, n, op) -> str:
+def _alone_key(h, op) -> str:
     e = op["e"] - 1
-    return json.dumps([op["op"], "".join(h["srcs"][op["t"] - 1]), h["cfgs"][e], _strings(h["delims"][e]),
-                       "sync" if n % 2 == 0 else "async"], sort_keys=True)
+    return json.dumps(["".join(h["srcs"][op["t"] - 1]), h["cfgs"][e], _strings(h["delims"][e])], sort_keys=True)
+
+
+def _alone_of(alone, h, n, op):
+    return alone[_alone_key(h, op)]["parse" if op["op"] == "parse" else ("sync" if n % 2 == 0 else "async")]
 
 
 HIST_RUNS = {
@@ -339,7 +387,7 @@ def history_jobs(tier: str) -> list:
     jobs = []
     for n, kw in enumerate(HIST_RUNS[tier]):
         jobs.append(("EnvHistory", gen_cfg("cfg/EnvHistory.tmpl", dict(kw, Dev="none", Emit="INVARIANT Emit"), f"h{n}"),
-                     dict(workers=1, timeout=3000)))
+                     dict(workers=4, timeout=3000)))
     for dv in HIST_DEVS[tier]:
         jobs.append(("EnvHistory", gen_cfg("cfg/EnvHistory.tmpl", dict(MaxOps=3, NEnvs=2, Vars=ALLVARS, Vars3="{}", Bases="{1, 2}",
                                                                    Wide="FALSE", Dev=dv, Emit=""), "hdev" + dv),
@@ -358,6 +406,7 @@ def history_cases(ck: Check, tier: str, results: list, rnd: random.Random):
         if not r.emitted:
             raise MachineryError("EnvHistory.tla emitted no history (vacuous)")
         hists += r.emitted
+    hists.sort(key=lambda h: json.dumps(h, sort_keys=True))
     for dv, r in zip(HIST_DEVS[tier], results[n:]):
         if r.violated != "HistoryIndependent":
             raise MachineryError(f"deviation {dv} does not violate HistoryIndependent ({r.violated!r}): vacuous")
@@ -368,33 +417,46 @@ def history_cases(ck: Check, tier: str, results: list, rnd: random.Random):
     return hists
 
 
-def history_replay(ck: Check, hists: list):
-    keys = sorted({_alone_key(h, n, op) for h in hists for n, op in enumerate(h["hist"])})
-    alone = dict(zip(keys, _pool_map(replay_alone, keys, fresh=True)))
+SESSION = 200
+
+
+def history_replay(ck: Check, hists: list, pool, singles: int):
+    """Returns one record per replayed history: the first `singles` histories each in a process of their own, then every
+    history again as part of a session of SESSION histories in one process."""
+    keys = sorted({_alone_key(h, op) for h in hists for op in h["hist"]})
+    alone = dict(zip(keys, _fresh_map(pool, replay_alone, keys)))
     ck.cov["alone_operations"] = len(keys)
     jobs = [(h, i % 2 == 1) for i, h in enumerate(hists)]
-    got = _pool_map(replay_history, jobs, fresh=True)
+    got = _fresh_map(pool, replay_history, jobs[:singles])
+    sessions = [jobs[i:i + SESSION] for i in range(0, len(jobs), SESSION)]
+    got += [g for part in _fresh_map(pool, replay_session, sessions, per_worker=1) for g in part]
+    ck.cov["histories_alone_in_a_process"] = min(singles, len(jobs))
+    ck.cov["sessions"] = len(sessions)
+    order = list(range(min(singles, len(jobs)))) + list(range(len(jobs)))
     records = []
-    for h, g in zip(hists, got):
-        records.append({"ops": [{"inhist": o, "alone": alone[_alone_key(h, n, op)], "spec": op["alone"]}
+    for i, g in zip(order, got):
+        h = hists[i]
+        records.append({"ops": [{"inhist": o, "alone": _alone_of(alone, h, n, op), "spec": op["alone"]}
                                 for n, (op, o) in enumerate(zip(h["hist"], g))]})
         ck.case(json.dumps([h["cfgs"], h["feat"], [(o["op"], o["t"], o["e"], o["k"]) for o in h["hist"]]]),
                 nontrivial=h["cfgs"][0] != h["cfgs"][1])
         ck.validated()
-    return records
+    return order, records
 
 
-def history_report(ck: Check, hists: list, records: list, verdicts: dict) -> None:
-    for i, clause in sorted(verdicts.items()):
+def history_report(ck: Check, hists: list, order: list, records: list, verdicts: dict, singles: int) -> None:
+    for j, clause in sorted(verdicts.items()):
+        i = order[j]
         h, lazy = hists[i], i % 2 == 1
         ops = []
-        for op, rec in zip(h["hist"], records[i]["ops"]):
+        for op, rec in zip(h["hist"], records[j]["ops"]):
             ops.append({"op": op["op"], "template": op["t"], "environment": op["e"], "of_parse": op["k"],
                         **{k: (v["k"], "".join(v["v"])) for k, v in rec.items()}})
+        where = "a process of its own" if j < singles else f"session {i // SESSION} (histories {i // SESSION * SESSION}..{i} ran before it in the same process)"
         ck.fail(f"HistoryIndependent: {clause}",
                 {"environments": [dict(c, delimiters=_strings(d)) for c, d in zip(h["cfgs"], h["delims"])],
                  "templates": ["".join(s) for s in h["srcs"]], "operations": ops,
-                 "environments_created": "before first use" if lazy else "up front"},
+                 "environments_created": "before first use" if lazy else "up front", "replayed_in": where},
                 sig=f"history:{clause}:{_diff(h['cfgs'])}:{h['feat']}")
     for h, rec in list(zip(hists, records))[:: max(1, len(hists) // 2)][:2]:
         ck.sample({"environments": h["cfgs"], "templates": ["".join(s) for s in h["srcs"]],
@@ -424,23 +486,28 @@ def run(tier: str) -> int:
         "base in one delimiter / comment syntax / all delimiters / extra tag / extra filter / missing filter / tolerance / implicit / nothing; "
         "each operation's result through the modelled memo tables = the operation alone")
     phase = ck.cov.setdefault("phase_s", {})
-    t0 = time.time()
+    singles = 24 if tier == "quick" else 600
+    pool = _pool()
     try:
-        dj, hj = delims_jobs(tier), history_jobs(tier)
-        results = run_many(dj + hj, parallel=12)
+        t0 = time.time()
+        try:
+            dj, hj = delims_jobs(tier), history_jobs(tier)
+            results = run_many(dj + hj, parallel=12)
+        finally:
+            cleanup_gen()
+        phase["tlc_generate"] = round(time.time() - t0, 1)
+        cases = delims_cases(ck, tier, results[:len(dj)], rnd)
+        hists = history_cases(ck, tier, results[len(dj):], rnd)
+        if cases is None or hists is None:
+            return ck.finish()
+        t0 = time.time()
+        order, hrecords = history_replay(ck, hists, pool, singles)          # first: the workers have only forked so far
+        phase["replay_history"] = round(time.time() - t0, 1)
+        t0 = time.time()
+        obs = pool.map(replay_delims, cases, chunksize=64)
+        phase["replay_delims"] = round(time.time() - t0, 1)
     finally:
-        cleanup_gen()
-    phase["tlc_generate"] = round(time.time() - t0, 1)
-    cases = delims_cases(ck, tier, results[:len(dj)], rnd)
-    hists = history_cases(ck, tier, results[len(dj):], rnd)
-    if cases is None or hists is None:
-        return ck.finish()
-    t0 = time.time()
-    obs = _pool_map(replay_delims, cases, fresh=False, chunk=128)
-    phase["replay_delims"] = round(time.time() - t0, 1)
-    t0 = time.time()
-    hrecords = history_replay(ck, hists)
-    phase["replay_history"] = round(time.time() - t0, 1)
+        pool.terminate()
     groups, drecords = delims_records(ck, cases, obs)
     t0 = time.time()
     from concurrent.futures import ThreadPoolExecutor
@@ -454,7 +521,7 @@ def run(tier: str) -> int:
     for n, r in enumerate(hjr):
         ck.tlc(f"EnvHistory judge #{n}", r)
     delims_report(ck, groups, drecords, dverdicts, cases, obs)
-    history_report(ck, hists, hrecords, hverdicts)
+    history_report(ck, hists, order, hrecords, hverdicts, singles)
     ck.assumptions += [
         "a delimiter set is tested only when Admissible (DelimDefs.tla): six strings of length 1-4 without whitespace, not beginning or ending "
         "with '-', none contained in another, and no place of the rewritten source where one of them can be read other than where it is meant",
